@@ -45,13 +45,21 @@ def decode(bs, shape):
         init[i] = lo[i] + (hi[i] - lo[i]) * pick("FRACS", k_init[i])
     cfg = dict(steps=shape["steps"], inner=shape["inner"],
                kt_start=shape["kt_start"] if shape.get("kt_start") is not None else pick("KTS", k_kt),
-               kt_finish=pick("FINS", k_fin) if (has_fin and shape.get("sym_finish")) else None,
-               kt_ratio=pick("RATIOS", k_ratio) if (has_ratio and shape.get("sym_ratio")) else None,
+               kt_finish=opt(shape.get("finish"), has_fin, pick("FINS", k_fin)),
+               kt_ratio=opt(shape.get("ratio"), has_ratio, pick("RATIOS", k_ratio)),
                max_step=pick("STEPS", k_step),
-               conv=pick("CONVS", k_conv) if (has_conv and shape.get("sym_conv")) else None,
+               conv=opt(shape.get("conv"), has_conv, pick("CONVS", k_conv)),
                seed=shape["seed"], np=np_, lo=lo, hi=hi)
     script = dict(valid=valid, score=[pick("SCORES", k) for k in k_score], init_score=pick("SCORES", k_init_score))
     return dict(cfg=cfg, script=script, init=init, exp_choice=exp_choice, powf_choice=pick("POWFS", k_powf))
+
+
+def opt(mode, has, v):
+    if mode is None:
+        return None
+    if mode == "sym":
+        return v if has else None
+    return float(mode)
 
 
 def replay_bin(profile="debug"):
